@@ -796,6 +796,14 @@ func init() {
 			return boolV(app(op, c.args[0].L[0], c.args[1].L[0]))
 		}
 	}
+	// time.Now: an arbitrary instant; contracts name the most recent reading "time_now"
+	s["time.Now"] = func(ex *Exec, fr *Frame, st *State, c *callCtx) Val {
+		v := ex.freshVal("now", c.results().At(0).Type())
+		if fr == ex.rootFrame {
+			ex.lastNow = &v
+		}
+		return v
+	}
 	s["(time.Time).Before"] = tcmp("<")
 	s["(time.Time).After"] = tcmp(">")
 	s["(time.Time).Equal"] = tcmp("=")
